@@ -153,6 +153,11 @@ type c16Step struct {
 	TP        []c16Act      `json:"tp"` // third-party interference (see c16Act.At)
 	Stale     []c16Stale    `json:"stale,omitempty"`
 	StaleRefs *c16StaleRefs `json:"staleRefs,omitempty"`
+	// DS (reconcile steps): spec.desiredState as the free-form string it is - "" for a revision
+	// that was never activated (revisionActivationPolicy: Manual), a case variant, garbage. nil:
+	// "Active" / "Inactive" according to Control. Control must say whether the string is exactly
+	// "Active" (c16Normalize makes it so).
+	DS *string `json:"ds,omitempty"`
 	// told to the model (filled in after the real run)
 	VOrder []int  `json:"vorder"`
 	EOrder []int  `json:"eorder"`
@@ -436,6 +441,7 @@ func init() {
 		}
 		var sb strings.Builder
 		sb.WriteString("/-- owner reference as (uid, controller, blockOwnerDeletion) -/\nabbrev C16Ref := Nat × Option Bool × Option Bool\n\n")
+		sb.WriteString("/-- `v1.PackageRevisionActive` / `v1.PackageRevisionInactive`: the two values of spec.desiredState the reconciler compares with -/\ndef c16DesiredActive : String := " + leanStr(string(pkgv1.PackageRevisionActive)) + "\ndef c16DesiredInactive : String := " + leanStr(string(pkgv1.PackageRevisionInactive)) + "\n\n")
 		// the flags meta.AsController / meta.AsOwner put on a reference
 		parent := c16ParentObj(c16Parent{UID: 7})
 		tr := xpmeta.TypedReferenceTo(parent, parent.GetObjectKind().GroupVersionKind())
